@@ -99,10 +99,28 @@ Definition c_base (expr : bool) (q t : Z) (regs : rk -> Z -> option Z) : obs :=
   else if k =? 13 then (0, 23)
   else if k =? 14 then c_kwargs q p (regs RT 2) E_UnknownTest 1
   else (0, p).
+(* macro pages: kind 0 with p mod 4 = 3, form (p / 4) mod 4 - a template that lets a render-local value escape
+   (form 0 a macro, 1 the loop object, 2 a namespace, 3 the caller of a call block) and calls the `f` of its
+   context if there is one.  An escaped value belongs to the render it came from: called anywhere else it
+   fails (InvalidOperation), whatever thread, whatever history. *)
+Definition is_macro_page (t : Z) : bool := (t mod 16 =? 0) && ((t / 16) mod 4 =? 3).
+Definition c_macro_page (rc t : Z) : obs :=
+  let q := rc mod 4 in
+  let esc := (rc / 32) mod 8 in
+  let cap := rc / 256 in
+  let form := (t / 64) mod 4 in
+  let r0 := if esc =? 0 then (0, 100 + q) else o_err E_InvalidOperation in
+  if cap =? 1 then (6, form + 1)                     (* the stash function was called: the value escaped *)
+  else if (cap =? 2) && (fst r0 =? 0) then           (* State::lookup after a successful render_captured *)
+    (if form =? 0 then (6, 1) else if form =? 2 then (6, 3) else r0)
+  else r0.
 Definition c_render (rc : Z) (mt : ctmpl) (regs : rk -> Z -> option Z) : obs :=
   let (m, t) := mt in
   let k := t mod 16 in
   let q := rc mod 4 in
+  if is_macro_page t && (0 <=? m) && negb ((rc / 4) mod 2 =? 1) then c_macro_page rc t else
+  if is_macro_page t && (m =? -1) then c_macro_page rc t else
+  if is_macro_page t && (m =? -2) then (0, if (t / 64) mod 4 =? 2 then 4 else 3) else
   if m =? -2 then (0, if k =? 10 then 2 else if (k =? 5) || ((8 <=? k) && (k <=? 15)) then 1 else 0)
   else if m =? -1 then c_base true q t regs
   else
@@ -137,7 +155,6 @@ Definition decode (op a b now : Z) : option wop :=
   | 4 => Some (WStore (ORemove a))
   | 5 => Some (WStore OClear)
   | 6 => Some (WStore (OSetLoader a))
-  | 8 => Some (WRender b a now)
   | 9 => Some (WRegAdd (rk_of (a / 4)) (a mod 4) b)
   | 10 => Some (WRegRemove (rk_of (a / 4)) (a mod 4))
   | 11 | 12 => Some WClone
@@ -157,15 +174,26 @@ Definition decode (op a b now : Z) : option wop :=
 Section Drive.
   Variable W : Type.
   Variable step : W -> wop -> W * obs.
-  Variable report : W -> Z -> list Z.
-  (* op 7 sets the world time (the clock the loader closures read) *)
-  Fixpoint drive (w : W) (now : Z) (l : list Z) : list (list Z) :=
+  Variable report : W -> Z -> Z -> list Z.
+  (* op 7 sets the world time (the clock the loader closures read).  [esc]: the kind of the value that escaped
+     from an earlier render and is passed as `f` in the context of every later render (0 = none); it is part
+     of the render call (rc / 32).  Op 26 renders with the capture bits set and keeps what escaped; op 27
+     captures from an ad-hoc macro page. *)
+  Fixpoint drive (w : W) (now esc : Z) (l : list Z) : list (list Z) :=
     match l with
     | op :: a :: b :: r =>
-        if op =? 7 then ([2; 0] ++ report w a) :: drive w a r
+        if op =? 7 then ([2; 0] ++ report w a esc) :: drive w a esc r
+        else if op =? 27 then let esc' := a mod 4 + 1 in ([6; esc'] ++ report w now esc') :: drive w now esc' r
+        else if op =? 8 then
+          let (w', o) := step w (WRender (b mod 32 + 32 * esc) a now) in
+          ([fst o; snd o] ++ report w' now esc) :: drive w' now esc r
+        else if op =? 26 then
+          let (w', o) := step w (WRender (8 * (b mod 4) + 32 * esc + 256 * (1 + (b / 4) mod 2)) a now) in
+          let esc' := if fst o =? 6 then snd o else 0 in
+          ([fst o; snd o] ++ report w' now esc') :: drive w' now esc' r
         else
           let (w', o) := match decode op a b now with Some wo => step w wo | None => (w, o_unit) end in
-          ([fst o; snd o] ++ report w' now) :: drive w' now r
+          ([fst o; snd o] ++ report w' now esc) :: drive w' now esc r
     | _ => []
     end.
 End Drive.
@@ -175,24 +203,24 @@ Definition flat_obs (l : list obs) : list Z := flat_map (fun o => [fst o; snd o]
 (* model side *)
 Definition m_world := world ctmpl.
 Definition m_step (old : bool) := world_step ctmpl c_compile c_loader old c_render.
-Definition m_obs_env (h : heap) (e : env ctmpl) (now : Z) : list Z :=
-  flat_obs (map (fun n => observe ctmpl c_compile c_loader c_render h e 0 n now) universe).
-Definition m_report (w : m_world) (now : Z) : list Z :=
-  m_obs_env (hp _ w) (cur _ w) now ++
+Definition m_obs_env (h : heap) (e : env ctmpl) (now esc : Z) : list Z :=
+  flat_obs (map (fun n => observe ctmpl c_compile c_loader c_render h e (32 * esc) n now) universe).
+Definition m_report (w : m_world) (now esc : Z) : list Z :=
+  m_obs_env (hp _ w) (cur _ w) now esc ++
   match other _ w with
-  | Some e => 1 :: m_obs_env (hp _ w) e now
+  | Some e => 1 :: m_obs_env (hp _ w) e now esc
   | None => 0 :: flat_obs (map (fun _ => (0, 0)) universe)
   end.
 
 (* spec side *)
 Definition s_world := sworld.
 Definition s_step := sworld_step ctmpl c_compile c_loader c_render.
-Definition s_obs_env (e : senv) (now : Z) : list Z :=
-  flat_obs (map (fun n => s_observe ctmpl c_compile c_loader c_render e 0 n now) universe).
-Definition s_report (w : s_world) (now : Z) : list Z :=
-  s_obs_env (scur w) now ++
+Definition s_obs_env (e : senv) (now esc : Z) : list Z :=
+  flat_obs (map (fun n => s_observe ctmpl c_compile c_loader c_render e (32 * esc) n now) universe).
+Definition s_report (w : s_world) (now esc : Z) : list Z :=
+  s_obs_env (scur w) now esc ++
   match sother w with
-  | Some e => 1 :: s_obs_env e now
+  | Some e => 1 :: s_obs_env e now esc
   | None => 0 :: flat_obs (map (fun _ => (0, 0)) universe)
   end.
 
